@@ -120,13 +120,28 @@ pub open spec fn is_div_by_zero<T>(r: Result<T>) -> bool {
     r is Err && r->Err_0.data == ErrorData::Logic(LogicError::DivisionByZero)
 }
 
+/// `=` on numbers, total: exact operands are compared by cross-multiplication (which IS equality of the
+/// rationals when the denominators are positive), otherwise R's own == on the converted operands
+pub open spec fn num_eq_spec<R: RealNumberInternalTrait>(x: Number<R>, y: Number<R>) -> bool {
+    if is_exact(x) && is_exact(y) { q_eq(x, y) } else { conv(x).eq_spec(&conv(y)) }
+}
+/// the three-way comparison of numbers, total (same convention)
+pub open spec fn num_cmp_spec<R: RealNumberInternalTrait>(x: Number<R>, y: Number<R>) -> Option<Ordering> {
+    if is_exact(x) && is_exact(y) {
+        Some(if q_lt(x, y) { Ordering::Less } else if q_eq(x, y) { Ordering::Equal } else { Ordering::Greater })
+    } else {
+        conv(x).partial_cmp_spec(&conv(y))
+    }
+}
+// Number OBEYS these specifications: that is what links the derived operators `<`, `<=`, `>`, `>=`, `==`, `!=`
+// (std default methods, specified by vstd in terms of partial_cmp_spec / eq_spec) to the proved comparison
 impl<R: RealNumberInternalTrait> vstd::std_specs::cmp::PartialEqSpecImpl<Number<R>> for Number<R> {
-    open spec fn obeys_eq_spec() -> bool { false }
-    open spec fn eq_spec(&self, other: &Number<R>) -> bool { arbitrary() }
+    open spec fn obeys_eq_spec() -> bool { true }
+    open spec fn eq_spec(&self, other: &Number<R>) -> bool { num_eq_spec(*self, *other) }
 }
 impl<R: RealNumberInternalTrait> vstd::std_specs::cmp::PartialOrdSpecImpl<Number<R>> for Number<R> {
-    open spec fn obeys_partial_cmp_spec() -> bool { false }
-    open spec fn partial_cmp_spec(&self, other: &Number<R>) -> Option<Ordering> { arbitrary() }
+    open spec fn obeys_partial_cmp_spec() -> bool { true }
+    open spec fn partial_cmp_spec(&self, other: &Number<R>) -> Option<Ordering> { num_cmp_spec(*self, *other) }
 }
 // operator contracts that a trait impl cannot carry as `requires` (Verus: AddSpecImpl & co.)
 impl<R: RealNumberInternalTrait> vstd::std_specs::ops::AddSpecImpl<Number<R>> for Number<R> {
@@ -543,16 +558,14 @@ fn check_division_by_zero_err<T>() -> (r: Result<T>)
              "sig_rewrites": [("S1", r"-> bool$", "-> (r: bool)")],
              "body_start": R_OPS, "inserts": [CMP_HINT], "attrs": "#[verifier::spinoff_prover]",
              "contract": """        ensures
-            wf(*self) && wf(*other) && is_exact(*self) && is_exact(*other) ==> r == q_eq(*self, *other),
-            !is_exact(*self) || !is_exact(*other) ==> r == conv(*self).eq_spec(&conv(*other)),"""}}},
+            // for ALL operands (the trait-level postcondition r == self.eq_spec(other) is proved as well)
+            r == num_eq_spec(*self, *other),"""}}},
         {"kind": "impl", "file": V, "impl": r"^impl<R: RealNumberInternalTrait> PartialOrd for Number<R>$",
          "methods": {"partial_cmp": {"props": ["C10", "C07"],
              "sig_rewrites": [("S1", r"-> Option<Ordering>$", "-> (r: Option<Ordering>)")],
              "body_start": R_OPS, "inserts": [CMP_HINT], "attrs": "#[verifier::spinoff_prover]",
              "contract": """        ensures
-            wf(*self) && wf(*other) && is_exact(*self) && is_exact(*other) ==> r == Some(
-                if q_lt(*self, *other) { Ordering::Less } else if q_eq(*self, *other) { Ordering::Equal } else { Ordering::Greater }),
-            !is_exact(*self) || !is_exact(*other) ==> r == conv(*self).partial_cmp_spec(&conv(*other)),"""}}},
+            r == num_cmp_spec(*self, *other),"""}}},
         {"kind": "impl", "file": V, "impl": IMPLN, "nth": 0,
          "methods": {"exact_eqv": {"props": ["C10", "C07"],
              "sig_rewrites": [("S1", r"-> bool$", "-> (r: bool)")],
@@ -656,6 +669,18 @@ fn check_division_by_zero_err<T>() -> (r: Result<T>)
          }},
     ],
     "spec": SPEC + r'''
+// ---- C10: the five comparison operators on Numbers, as the builtins use them (`last_num < current_num`, `==` ...):
+// ---- std derives them from partial_cmp / eq; with Number obeying its specs they are PROVED to be the order above
+fn witness_operators<R: RealNumberInternalTrait>(x: Number<R>, y: Number<R>) -> (r: (bool, bool, bool, bool, bool))
+    ensures
+        r.0 == num_eq_spec(x, y),
+        r.1 == (num_cmp_spec(x, y) == Some(Ordering::Less)),
+        r.2 == (num_cmp_spec(x, y) == Some(Ordering::Greater)),
+        r.3 == (num_cmp_spec(x, y) == Some(Ordering::Less) || num_cmp_spec(x, y) == Some(Ordering::Equal)),
+        r.4 == (num_cmp_spec(x, y) == Some(Ordering::Greater) || num_cmp_spec(x, y) == Some(Ordering::Equal)),
+{
+    (x == y, x < y, x > y, x <= y, x >= y)
+}
 impl<R: RealNumberInternalTrait> NumberBinaryOperand<R> {
     pub open spec fn lhs_spec(self) -> Number<R> {
         match self {
